@@ -51,7 +51,7 @@ def cases(tier, seed):
             for t in scope.level0_tilings(blocks, 4):
                 meshes.append({"ndims": nd, "domain": [b * 2 for b in blocks],
                                "levels": [[[list(lo), list(hi)] for lo, hi in t]]})
-        geos = list(scope.geometries(nd))
+        geos = list(scope.geometries(nd)) + scope.extreme_geometries(nd)
         k = seed
         for mi, mesh in enumerate(meshes):
             nlev = len(mesh["levels"])
